@@ -9,7 +9,13 @@ Read with `ast` from the files themselves (no import needed):
   * for each of the six places that swap a timeout value (the two `decorate` closures of
     timeout_modifier, _read_until_prompt_or_time and read_callback, sync and asyncio): how many
     assignments set the value, how many of those are covered by a try whose `finally` restores it,
-    how many restores sit in a `finally`, how many outside."""
+    how many restores sit in a `finally`, how many outside;
+  * the thread based timeout of the sync stack (decorators._multiprocessing_timeout): which functions of
+    scrapli/decorators.py start a thread / an executor at all, and whether the one executor is left in a
+    way that JOINS its worker before the ScrapliTimeout can reach the caller (`with ThreadPoolExecutor(..)`
+    or shutdown() / shutdown(wait=True) in a `finally` around everything that can raise, and no
+    shutdown(wait=<anything else>) anywhere): the worker's restore of timeout_transport then
+    happens-before the end of the call."""
 import ast
 import os
 import sys
@@ -155,6 +161,81 @@ def analyse_swaps(fn):
     return res
 
 
+SPAWNERS = ("ThreadPoolExecutor", "ProcessPoolExecutor", "Thread", "Process", "Timer", "start_new_thread",
+            "run_in_executor", "to_thread")
+POOL_FUNC = "_multiprocessing_timeout"
+
+
+def call_name(n):
+    f = n.func
+    return f.id if isinstance(f, ast.Name) else (f.attr if isinstance(f, ast.Attribute) else None)
+
+
+def _waits(call):
+    """pool.shutdown(...) that waits for the worker: wait absent or the constant True, nothing else passed"""
+    if len(call.args) > 1 or any(k.arg not in ("wait",) for k in call.keywords):
+        return False
+    vals = list(call.args) + [k.value for k in call.keywords]
+    return all(isinstance(v, ast.Constant) and v.value is True for v in vals)
+
+
+def analyse_pool(tree):
+    """(joins, why, functions that start threads) for scrapli/decorators.py"""
+    sites = []
+    for fn in ast.walk(tree):
+        if isinstance(fn, FUNC):
+            own = [n for st in fn.body for n in ast.walk(st)]
+            if any(isinstance(n, ast.Call) and call_name(n) in SPAWNERS for n in own):
+                inner = {id(n) for st in fn.body for g in ast.walk(st) if isinstance(g, FUNC) for n in ast.walk(g)}
+                if any(isinstance(n, ast.Call) and call_name(n) in SPAWNERS and id(n) not in inner for n in own):
+                    sites.append(fn.name)
+    fns = [f for f in tree.body if isinstance(f, FUNC) and f.name == POOL_FUNC]
+    if len(fns) != 1:
+        return False, "%s not found" % POOL_FUNC, sorted(sites)
+    fn = fns[0]
+    nodes = list(ast.walk(fn))
+    creations = [n for n in nodes if isinstance(n, ast.Call) and call_name(n) in SPAWNERS]
+    if len(creations) != 1 or call_name(creations[0]) != "ThreadPoolExecutor":
+        return False, "expected exactly one ThreadPoolExecutor(...)", sorted(sites)
+    creation = creations[0]
+    # everything that may raise towards the caller or hand a result back
+    leaving = [n for n in nodes if isinstance(n, (ast.Raise, ast.Return))
+               or (isinstance(n, ast.Call) and call_name(n) in ("_handle_timeout", "submit", "wait", "result"))]
+    shutdowns = [n for n in nodes if isinstance(n, ast.Call) and call_name(n) == "shutdown"]
+    if any(not _waits(c) for c in shutdowns):
+        return False, "shutdown() that does not wait for the worker", sorted(sites)
+    name = None
+    region = None
+    for n in nodes:
+        if isinstance(n, ast.With) and len(n.items) == 1 and n.items[0].context_expr is creation:
+            v = n.items[0].optional_vars
+            name = v.id if isinstance(v, ast.Name) else None
+            region = n.body
+    if region is None:
+        # pool = ThreadPoolExecutor(..) ; try: ... finally: pool.shutdown()
+        for blockname, stmts in [(None, fn.body)]:
+            for i, s in enumerate(stmts):
+                if isinstance(s, ast.Assign) and s.value is creation and len(s.targets) == 1 and isinstance(s.targets[0], ast.Name):
+                    name = s.targets[0].id
+                    nxt = stmts[i + 1] if i + 1 < len(stmts) else None
+                    if isinstance(nxt, ast.Try) and any(
+                            isinstance(x, ast.Expr) and isinstance(x.value, ast.Call) and call_name(x.value) == "shutdown"
+                            and isinstance(x.value.func, ast.Attribute) and isinstance(x.value.func.value, ast.Name)
+                            and x.value.func.value.id == name for x in nxt.finalbody):
+                        region = nxt.body
+                        if len(stmts) > i + 2:
+                            return False, "statements after the try that shuts the executor down", sorted(sites)
+    if region is None:
+        return False, "the executor is neither a context manager nor shut down in a finally", sorted(sites)
+    inside = {id(n) for st in region for n in ast.walk(st)}
+    if any(id(n) not in inside for n in leaving):
+        return False, "a raise / return / wait outside the region whose exit joins the worker", sorted(sites)
+    stores = [n for n in nodes if isinstance(n, ast.Name) and n.id == name and isinstance(n.ctx, ast.Store)]
+    if name is None or len(stores) != 1:
+        return False, "the executor has no name of its own / the name is rebound", sorted(sites)
+    return True, "", sorted(sites)
+
+
 def coq_str(s):
     if '"' in s or "\\" in s:
         raise ValueError("unexpected character in identifier %r" % s)
@@ -251,6 +332,8 @@ def generate(outdir):
                 others.append("%s.%s" % (cname, mname))
                 break
 
+    pool_joins, pool_why, thread_sites = analyse_pool(trees.setdefault("scrapli/decorators.py", parse("scrapli/decorators.py")))
+
     lines = ["(* generated from the source tree by gen/gen_timeouts.py — do not edit *)",
              "From Coq Require Import ZArith List String Bool.", "Import ListNotations.", "Open Scope string_scope.", ""]
     lines.append("Definition gen_timeout_methods : list (string * string * string) := [")
@@ -277,6 +360,9 @@ def generate(outdir):
     lines.append(";\n".join("  (%s, (%d, %d, %d, %d)%%nat)" % (coq_str(n), r["sets"], r["guarded"], r["rin"], r["rout"]) for n, r in sites))
     lines.append("].\n")
     lines.append("Definition gen_other_swap_sites : list string := [%s].\n" % "; ".join(coq_str(x) for x in others))
+    lines.append("(* the thread based timeout: leaving the executor joins the worker; the functions of decorators.py that start threads *)")
+    lines.append("Definition gen_pool_joins : bool := %s.\n" % ("true" if pool_joins else "false"))
+    lines.append("Definition gen_thread_sites : list string := [%s].\n" % "; ".join(coq_str(x) for x in thread_sites))
     text = "\n".join(lines)
     path = os.path.join(outdir, "Gen_Timeouts.v")
     if not os.path.exists(path) or open(path).read() != text:
@@ -284,7 +370,8 @@ def generate(outdir):
     info = {"methods": len(methods), "decorated": ["%s.%s" % d for d in sorted(decorated)],
             "handovers": len(handovers), "handovers_not_by_keyword": ["%s.%s->%s" % h[:3] for h in handovers if not h[3]],
             "swap_sites": {n: r for n, r in sites}, "other_swap_sites": others,
-            "next_timeout_default_ms": next_timeout, "read_duration_when_none_ms": dict(none_defaults)}
+            "next_timeout_default_ms": next_timeout, "read_duration_when_none_ms": dict(none_defaults),
+            "pool_joins": pool_joins, "pool_joins_why_not": pool_why, "thread_sites": thread_sites}
     return path, info
 
 
